@@ -30,7 +30,7 @@ def make_table(rng, tmp, idx):
             vals[0] = vals[0] + 1
         missing = None
         if rng.random() < 0.5:
-            missing = -99
+            missing = rng.choice([-99, -99, 0])
             for k in rng.sample(range(n), rng.randrange(1, max(2, n // 3))):
                 vals[k] = missing
         cols.append(("col%d" % j, integer, vals, missing))
@@ -82,6 +82,10 @@ def gen_model(rng, tmp, idx, depth):
         name = "%s_%d" % (cmd[:6], i)
         cmds.append((name, cmd, args))
         (fuzzy if cmd in eems.FUZZY_PRODUCERS else nonfuzzy).append(name)
+    # models end by writing some of their results (the missing-value marker is sometimes 0: still a marker)
+    if rng.random() < 0.7:
+        outs = rng.sample(nonfuzzy + fuzzy, min(len(nonfuzzy + fuzzy), rng.randrange(1, 4)))
+        cmds.append(("Out", "EEMSWrite", [("OutFileName", "out%d.csv" % idx), ("OutFieldNames", [Name(x) for x in outs])]))
     return cmds
 
 
@@ -215,6 +219,10 @@ def run(ctx):
                 ctx.count("unexpected_in_well_typed:" + inner)
         elif ref["status"].startswith("raw:") or ref["status"] == "syntax":
             ctx.fail("well-typed model: %s" % ref["status"], desc)
+        elif ref["status"].startswith("mp:") and ref["status"].split(":")[1] in (
+                "MissingParameters", "NoSuchParameter", "CommandDoesNotExist", "DuplicateResult", "ResultDoesNotExist", "ParameterNotValid",
+                "ResultTypeNotValid", "ResultIsFuzzy", "ResultNotFuzzy", "PathDoesNotExist", "InvalidRelativePath", "RecursiveModelStructure"):
+            ctx.fail("well-formed, well-typed model rejected: %s" % ref["status"], desc)
         # every argument written in the file reaches the body with its value (an argument equal to 0 or "" is still an argument)
         for rname, cname, args in cmds:
             kw = rec.kwargs.get(rname)
@@ -274,7 +282,7 @@ def run(ctx):
         # further consumers of intermediate results
         if ref["status"] == "ok":
             extra = list(cmds)
-            data_names = [n for n in names]
+            data_names = [n for n in names if n != "Out"]
             for j in range(rng.randrange(1, 4)):
                 tgt = rng.choice(data_names)
                 extra.insert(rng.randrange(len(extra) + 1), ("Extra%d" % j, "Copy", [("InFieldName", Name(tgt))]))
